@@ -100,6 +100,8 @@ def GridAligned (o : Opts) (n : Note) : Prop :=
 def NonTouching (notes : List Note) : Prop :=
   notes.Pairwise fun a b => a.pitch = b.pitch → a.onset + a.dur < b.onset ∨ b.onset + b.dur < a.onset
 
+theorem truncRat_zero : truncRat 0 = 0 := by decide +kernel
+
 theorem grid_frames {o : Opts} (ho : RoundTripOpts o) {n : Note} (hg : GridAligned o n) :
     0 ≤ onFrame o 0 n ∧ onFrame o 0 n < offFull o 0 n ∧ offCell o 0 n = offFull o 0 n ∧
     ((onFrame o 0 n : Int) : Rat) = (o.timeDiv : Rat) * n.onset ∧
@@ -108,7 +110,7 @@ theorem grid_frames {o : Opts} (ho : RoundTripOpts o) {n : Note} (hg : GridAlign
   obtain ⟨k, d, hd, hk, hdur⟩ := hg
   have hon : onFrame o 0 n = (k : Int) := by
     unfold onFrame marginFrames
-    rw [sub_zero, hk, ho.tm, ← Int.cast_natCast k, Round.roundHalfEven_int]
+    rw [sub_zero, hk, ho.tm, ← Int.cast_natCast k, Round.roundHalfEven_int, zero_mul, truncRat_zero]
     simp
   have hdf : durFrames o n = (d : Int) := by
     unfold durFrames
@@ -166,12 +168,12 @@ theorem runs_of_roll (o : Opts) (notes : List Note) (r : Roll) (ho : RoundTripOp
     have hc : Covers o notes n n.pitch (onFrame o 0 n) :=
       (hcov n hn _ _).mpr ⟨rfl, le_refl _, (grid_frames ho (hg n hn)).2.1⟩
     have hb := cells_in_range_aux o notes r h n hn _ _ hc
-    have hR : rowsFull o notes = 128 := by simp [rowsFull, lowestOf, highestOf, ho.pm]
+    have hR : rowsFull o notes = 128 := by simp [rowsFull, lowestOf, highestOf, ho.pm, tbl_lowest, tbl_highest]
     rw [hR] at hb
     by_cases hp : o.pianoRange = true
     · have := hpr hp n hn
       have h88 := (shape_rows_aux o notes r h).2.1 ho.pm hp
-      simp only [rowStartOf, hp, if_true]
+      simp only [rowStartOf, hp, if_true, tbl_piano_lo]
       omega
     · have hp' : o.pianoRange = false := by simpa using hp
       have h128 := (shape_rows_aux o notes r h).1 ho.pm hp'
@@ -320,14 +322,31 @@ theorem grid_gap {o : Opts} (ho : RoundTripOpts o) {a b : Note} (ha : GridAligne
     exact_mod_cast this
 
 /-- what `pianoroll_to_notearray` makes of a run -/
-def outOf (init : Int) (td : Int) (x : Run) : OutNote :=
-  ((x.pitch : Int) + init, (x.on : Rat) / (td : Rat), ((x.off - x.on : Nat) : Rat) / (td : Rat), x.vel)
+def outOf (init : Int) (td : Rat) (x : Run) : OutNote :=
+  ((x.pitch : Int) + init, (x.on : Rat) / td, ((x.off - x.on : Nat) : Rat) / td, x.vel)
 
-theorem decode_eq (rows : Nat) (cols : List (List Int)) (td : Int) (init : Int)
-    (h : (rows = 128 ∧ init = 0) ∨ (rows = 88 ∧ init = 21)) :
+theorem decode_eq (rows : Nat) (cols : List (List Int)) (td : Rat) (init : Int)
+    (h : (rows = 128 ∧ init = 0) ∨ (rows = 88 ∧ init = 21)) (htd : td ≠ 0 ∨ decodeRuns cols = []) :
     decode rows cols td = some ((decodeRuns cols).map (outOf init td)) := by
+  have hz : ¬ (td = 0 ∧ decodeRuns cols ≠ []) := by
+    rintro ⟨h1, h2⟩
+    rcases htd with h | h
+    · exact h h1
+    · exact h2 h
   unfold decode
-  rcases h with ⟨h1, h2⟩ | ⟨h1, h2⟩ <;> subst h1 h2 <;> rfl
+  rcases h with ⟨h1, h2⟩ | ⟨h1, h2⟩ <;> subst h1 h2
+  · simp only [tbl_dec_full, if_true, tbl_dec_init_full, if_neg hz]; rfl
+  · simp only [tbl_dec_full, tbl_dec_piano, tbl_dec_init_piano, if_true, if_neg hz]
+    rfl
+
+/-- `time_div = 0` with at least one note: ZeroDivisionError -/
+theorem decode_div_zero (rows : Nat) (cols : List (List Int)) (h : decodeRuns cols ≠ []) :
+    decode rows cols 0 = none := by
+  unfold decode
+  simp only
+  split
+  · rfl
+  · simp [h]
 
 /-- **round trip**: decoding the roll of grid-aligned, non-touching notes gives back every pitch, onset,
     duration and velocity -/
@@ -335,7 +354,7 @@ theorem decode_encode_aux (o : Opts) (notes : List Note) (r : Roll) (ho : RoundT
     (h : makePianoroll o notes = some r) (hg : ∀ n ∈ notes, GridAligned o n) (hv : ∀ n ∈ notes, 0 < n.vel)
     (hnt : NonTouching notes)
     (hpr : o.pianoRange = true → ∀ n ∈ notes, 21 ≤ n.pitch ∧ n.pitch ≤ 108) :
-    ∃ out, decode r.rows.toNat r.toCols o.timeDiv = some out ∧
+    ∃ out, decode r.rows.toNat r.toCols (o.timeDiv : Rat) = some out ∧
       out ~ notes.map (fun n => (n.pitch, n.onset, n.dur, n.vel)) := by
   obtain ⟨hrow0, hruns⟩ := runs_of_roll o notes r ho h hg hv hnt hpr
   obtain ⟨hnd, _, hmem⟩ := decodeRuns_spec r.toCols
@@ -364,12 +383,15 @@ theorem decode_encode_aux (o : Opts) (notes : List Note) (r : Roll) (ho : RoundT
     by_cases hp : o.pianoRange = true
     · right
       have := (shape_rows_aux o notes r h).2.1 ho.pm hp
-      simp [this, rowStartOf, hp]
+      simp [this, rowStartOf, hp, tbl_piano_lo]
     · left
       have hp' : o.pianoRange = false := by simpa using hp
       have := (shape_rows_aux o notes r h).1 ho.pm hp'
       simp [this, rowStartOf, hp']
-  refine ⟨_, decode_eq _ _ _ (rowStartOf o) hshape, ?_⟩
+  have htd0 : ((o.timeDiv : Int) : Rat) ≠ 0 := by
+    have := ho.td_pos
+    exact_mod_cast (ne_of_gt this)
+  refine ⟨_, decode_eq _ _ _ (rowStartOf o) hshape (Or.inl htd0), ?_⟩
   refine (hperm.map _).trans ?_
   rw [map_map]
   apply Perm.of_eq
